@@ -698,8 +698,11 @@ func (c *core) processAcceptedInternalTransactions(roundReceived int, receipts [
 				validators = validators.WithRemovedPeer(&txBody.Peer)
 				currentPeers = currentPeers.WithRemovedPeer(&txBody.Peer)
 
-				// Update RemovedRound if removing self
-				if txBody.Peer.ID() == c.validator.ID() {
+				// Update RemovedRound if removing self. A repeated leave request
+				// (no join accepted in between) does not postpone the removal that
+				// an earlier one already scheduled.
+				if txBody.Peer.ID() == c.validator.ID() &&
+					(c.removedRound <= c.acceptedRound || effectiveRound < c.removedRound) {
 					c.logger.Debugf("Update RemovedRound from %d to %d", c.removedRound, effectiveRound)
 					c.removedRound = effectiveRound
 				}
